@@ -263,6 +263,30 @@ pub fn drive(a: &Args) -> i32 {
                             q.obs(&mut t, pp).await;
                         }
                     }
+                    80..=81 if kind == 2 && !top => {
+                        // an accepted message whose timestamp is almost an hour old, persisted, then reloaded after it
+                        // has crossed the hour: the reloaded store must still refuse that peer's old numbers
+                        let s = cur + 1;
+                        let ts = now() - 3598;
+                        let reqs = vec![BatchUpdateRequest { user_id: q.peers[p].clone(), sequence: s, message_hash: q.hashes[0], timestamp: ts }];
+                        let sys = q.sys.as_ref().expect("open");
+                        if let Ok(Ok(rs)) = std::panic::AssertUnwindSafe(sys.batch_update(reqs)).catch_unwind().await
+                            && let Some(r) = rs.first()
+                        {
+                            t.ev(json!({"ev":"Submit","via":"batch_update","i":0,"p":p+1,"s":proj(s),"ts":"edgeO",
+                                        "res":res_name(&r.result),"applied":r.applied}));
+                        }
+                        q.obs(&mut t, p).await;
+                        q.sync(&mut t).await;
+                        tokio::time::sleep(Duration::from_millis(3200)).await;
+                        if !q.reload(&mut t).await {
+                            break;
+                        }
+                        submit_single(&q, &mut t, p, 1, q.hashes[1]).await;
+                        q.obs(&mut t, p).await;
+                        submit_single(&q, &mut t, p, s, q.hashes[0]).await;
+                        q.obs(&mut t, p).await;
+                    }
                     80..=87 => q.sync(&mut t).await,
                     88..=95 => {
                         if rng.gen_bool(0.5) {
